@@ -136,12 +136,18 @@ func init() {
 		Technique: "contract-based deductive verification: byte-level key lemmas over spec functions extracted mechanically from the real key builders (SMT strings), lookup/feed/expiry contracts over the ghost price table; VCs from go/ssa discharged by z3/cvc5"})
 	register(&PropSpec{ID: "C08", Level: "proof", Contracts: true, Extra: func(e *Engine, pc *PropertyCheck) { e.writerClosure(pc, "C08", "leveragelp") },
 		Technique: "contract-based deductive verification: ghost aggregates (per-pool sum of position shares, number of stored positions) with gap-preservation contracts on every function that writes the leveragelp store and on all their callers up to the entry points (closure checked on the SSA call graph); VCs from go/ssa discharged by z3/cvc5"})
+	register(&PropSpec{ID: "C01", Level: "proof", Contracts: true, Extra: func(e *Engine, pc *PropertyCheck) {
+		e.writerClosure(pc, "C01", "amm", "amm:types.KeyPrefix/types.PoolKey")
+	},
+		Technique: "contract-based deductive verification: per-pool, per-denom gap contracts (reserve reported by the stored pool - bank balance at the pool address) on the real join/exit/create/swap/fee/perpetual-transfer functions, type-level reserve bookkeeping contracts, freshness preconditions on every pool object handed down (quantified over denoms and discharged with solver-level quantifiers), closure scan over every writer of the amm pool table; VCs from go/ssa discharged by z3/cvc5"})
 	register(&PropSpec{ID: "C02", Level: "proof", Contracts: true, Extra: func(e *Engine, pc *PropertyCheck) {
 		e.writerClosure(pc, "C02", "amm", "amm:types.KeyPrefix/types.PoolKey")
 	},
 		Technique: "contract-based deductive verification: gap contracts (pool.TotalShares - share-token supply; supply - commitment custody balance) on the real join/exit/create functions of amm and the commit/uncommit functions of commitment, type-level share bookkeeping contracts, closure scan over every writer of the amm pool table; VCs from go/ssa discharged by z3/cvc5"})
 	register(&PropSpec{ID: "C04", Level: "proof", Contracts: true, Extra: c04Extra,
 		Technique: "contract-based deductive verification: bank-level settlement postconditions on the real swap functions (per hop and per route: sender debited exactly, recipient credited at least, nobody else's balance moves), accept-only-enqueues frames on the message handlers, structural obligations on the end-of-block batch (requests applied on fresh cache contexts, written only after success); VCs from go/ssa discharged by z3/cvc5"})
+	register(&PropSpec{ID: "C11", Level: "proof", Contracts: true,
+		Technique: "contract-based deductive verification: functional contracts on the two accounted-pool update functions (accounted balance of every listed denom = reserve of the pool object handed in + perpetual liabilities - custody of the perpetual pool object handed in; recorded perpetual part kept by liquidity-pool changes), interface contracts on the perpetual position hooks whose preconditions (the two pool objects are the stored ones, quantified over denoms) are proved at the call sites in x/perpetual; VCs from go/ssa discharged by z3/cvc5"})
 	register(&PropSpec{ID: "C10", Level: "proof", Contracts: true,
 		Technique: "contract-based deductive verification: gate postconditions on the real liquidation / stop-loss / take-profit helpers of leveragelp and perpetual (a force close runs only behind the stated comparison on the values the module computes at that moment; a position off its trigger is left alone), opens and consolidating re-opens store a health strictly above the safety factor read at that moment, owner-keyed lookups on user closes, `callers` clauses pinning every route to the force-close and repay functions; VCs from go/ssa discharged by z3/cvc5"})
 	register(&PropSpec{ID: "C14", Level: "proof", Contracts: true,
